@@ -104,14 +104,27 @@ func (r *responseWriter) Write(b []byte) (int, error) {
 	return r.writer.Write(b)
 }
 
+// Flush sends any buffered data to the client, the response can still be written to.
 func (r *responseWriter) Flush() {
+	if nil == r.writer {
+		return
+	}
 	if !r.wroteHeader {
 		r.WriteHeader(http.StatusOK)
 	}
-	_ = r.Close()
+	_ = r.writer.Flush()
 }
 
+// Close finishes the response: it may be called more than once.
 func (r *responseWriter) Close() (err error) {
+
+	if nil == r.writer {
+		return nil
+	}
+
+	if !r.wroteHeader {
+		r.WriteHeader(http.StatusOK)
+	}
 
 	if nil != r.chunkWriter {
 		err = r.chunkWriter.Close()
